@@ -19,7 +19,7 @@ def events_equal(engine_list, native_list):
     return runner.norm_events(engine_list or []) == [e.strip() for e in (native_list or [])]
 
 
-def process_harness(ctx, res, pkg_rel, max_replay_per_driver=2):
+def process_harness(ctx, res, pkg_rel, max_replay_per_driver=2, order_free=None):
     """Single-world harness results: replay models natively, classify, print lines.
     Returns (n_violations_new, known_matched, replayed, mismatches, details)."""
     cases = []
@@ -42,7 +42,12 @@ def process_harness(ctx, res, pkg_rel, max_replay_per_driver=2):
         else:
             # the native run must show the same logs the engine predicted and fail the same assertion
             same_logs = all(events_equal(f["logs"].get(l), n["logs"].get(l)) for l in set(f["logs"]) | set(n["logs"]))
-            failed = f["assert_id"] in n["fails"] or (f["assert_id"] == -1)
+            if order_free and re.search(order_free, d["name"]):
+                same_logs = True  # native map iteration order is random; only the failure itself is compared
+            if f["kind"] == "uncaught-panic":
+                failed = n["panic"] not in ("", "<nil>")
+            else:
+                failed = f["assert_id"] in n["fails"]
             confirmed = same_logs and failed
             if not confirmed:
                 why = "native run disagrees with the engine (same_logs=%s, native fails=%s, panic=%s)" % (same_logs, n["fails"], n["panic"])
@@ -189,3 +194,53 @@ def plan_C08(ctx):
 
 
 CLAIMED["C08"] = plan_C08
+
+
+# ------------------------------------------------------------------------------------------------
+# C10
+
+
+def plan_C10(ctx):
+    smax = ctx.q(4, 6)
+    lines = ["package c10", ""]
+    for n in range(0, smax + 1):
+        lines.append("func Drive_string_%d() { DriveString(%d) }" % (n, n))
+    lines.append("func Drive_int() { DriveInt(%d) }" % ctx.q(4, 8))
+    for n in range(0, ctx.q(3, 5) + 1):
+        for extra in (0, 1):
+            lines.append("func Drive_slice_%d_%d() { DriveSlice(%d, %d, %d) }" % (n, extra, n, extra, min(n + 1, ctx.q(3, 4))))
+    lines.append("func Drive_nil() { DriveNil() }")
+    for n in range(0, ctx.q(3, 4) + 1):
+        lines.append("func Drive_map_int_int_%d() { DriveMapIntInt(%d, %d) }" % (n, n, n))
+    for n in range(1, 4):
+        lines.append("func Drive_map_string_any_%d() { DriveMapStringAny(%d) }" % (n, n))
+        lines.append("func Drive_map_any_int_%d() { DriveMapAnyInt(%d) }" % (n, n))
+    for n in range(0, 4):
+        lines.append("func Drive_chan_%d() { DriveChan(%d) }" % (n, n))
+    with open(os.path.join(ctx.ws, "rt/c10/zz_drivers.go"), "w") as f:
+        f.write("\n".join(lines) + "\n")
+    os.remove(os.path.join(ctx.ws, "rt/c10/drivers_dev.go"))
+    args = engine_common(ctx)
+    args[args.index("-maxpaths") + 1] = str(ctx.q(100000, 2000000))
+    args[args.index("-wall") + 1] = ctx.q("300s", "3000s")
+    res = runner.run_engine(ctx, ["-harness", "verifws/rt/c10"] + args)
+    new, known, replayed, mism, details = process_harness(ctx, res, "rt/c10", order_free=r"Drive_map_")
+    extra = {
+        "bounds": {"string_bytes_max": smax, "string_bytes": "fully symbolic (all 256 values per byte, so ASCII, every multi-byte class and every invalid sequence)",
+                   "integer_n": "every n <= %d (all n <= 0 in one path)" % ctx.q(4, 8),
+                   "slice_len_max": ctx.q(3, 5), "slice_mutations": "per iteration one of none/store/append/shrink/nil, spare capacity 0 or 1",
+                   "map_entries_max": ctx.q(3, 4), "map_key_value_types": ["int->int with deletion script", "string->any incl. nil", "any(incl. nil)->int"],
+                   "chan_values_max": 3,
+                   "outside": "longer strings/collections; map insertion during iteration; map iteration order (fixed to insertion order in both halves); unbuffered channels and concurrent senders"},
+        "exhaustive": True,
+        "explanation": "native range and seq.New*Iter run in the same harness on the same symbolic input; UTF-8 decoding is forked per byte class with solver-checked feasibility; one equality query per path",
+        "details": details[:20],
+    }
+    return finish(ctx, res, "model_checking", new, known, replayed, mism, extra,
+                  ["string range, []rune(s) and utf8.DecodeRuneInString are modelled by one engine decoder that mirrors unicode/utf8 (validated natively against the real package in the engine self-test)",
+                   "reflect.ValueOf/MapRange/MapIter.Next/Key/Value/Value.Interface are modelled with range semantics over an insertion-ordered map",
+                   "integer range reference is the spec reading: i = 0..n-1, nothing for n <= 0"],
+                  floors={"paths_completed": ctx.q(1000, 10000)})
+
+
+CLAIMED["C10"] = plan_C10
